@@ -201,7 +201,10 @@ def model_values(model, inputs):
         if ty is bool:
             vals[name] = bool(v)
         elif isinstance(v, Fraction):
-            vals[name] = float(v) if v.denominator != 1 else (int(v) if not (ty is float or ty is np.float64) else float(v))
+            try:
+                vals[name] = float(v) if v.denominator != 1 else (int(v) if not (ty is float or ty is np.float64) else float(v))
+            except OverflowError:
+                vals[name] = 1e300 if v > 0 else -1e300
         else:
             vals[name] = v
     return vals
